@@ -4,4 +4,5 @@ def reportSkipMarksData : Bool := true      -- reportSkip sets DataPredecessors[
 def skippedIffAllSkipped : Bool := true     -- ch.Skipped = (every control predecessor is Skipped)
 def getResetsAll : Bool := true             -- get's deferred reset clears Values and both predecessor maps
 def workflowIsEagerDag : Bool := true       -- isWorkflow ⇒ runTypeDAG ∧ eager
+def runBuildsFreshChannels : Bool := true   -- runner.run: cm := r.initChannelManager(...), every channel made anew, the runner keeps none
 end EinoV.Expected.C02
